@@ -10,6 +10,8 @@ Inductive op :=
 | ORelease (c : Z) | OClose (c : Z)     (* ReleaseConn / CloseConn by the requester holding c *)
 | OCloseBegin (c : Z) | OCloseFin (c : Z)  (* CloseConn on a conn whose Close() blocks until OCloseFin (decConnsCount follows) *)
 | OCloseIdle                   (* CloseIdleConnections() *)
+| OCloseIdleBegin              (* CloseIdleConnections() in a goroutine while Close() of every idle conn blocks: it takes its copy of the
+                                  idle list and enters Close() of the first one; each OCloseFin lets it finish that conn and enter the next *)
 | OIdleExpire                  (* wait for the real connsCleaner to retire every idle conn *)
 | OMDecide (tmo : Z)           (* manual waiter: first region of AcquireConn found the pool full (harness-side), wantConn allocated *)
 | OMEnqueue (w : Z)            (* real queueForIdle(w) *)
@@ -28,6 +30,7 @@ Record obs := mkobs {
   o_lent : list Z;                 (* conns held by harness requesters *)
   o_rets : list res;               (* AcquireConn calls that returned during this op *)
   o_man : list (Z * view * bool);  (* manual wantConns: (wid, state, owner returned) *)
+  o_closelog : list Z;             (* conns whose Close() has been called, in call order (-1: a conn the harness never created) *)
   o_stuck : bool }.                (* watchdog fired *)
 
 Inductive c18case :=
@@ -38,7 +41,8 @@ Inductive c18case :=
 (* ---------------- model side ---------------- *)
 Definition BIG : Z := 1000000.
 
-Record cst := { ms : st; autos : list nat; mans : list nat }.
+(* cic: the conn CloseIdleConnections (OCloseIdleBegin) is currently closing *)
+Record cst := { ms : st; autos : list nat; mans : list nat; cic : option nat }.
 
 Definition res_of (r : wres) : res :=
   match r with RConn c => SConn (Z.of_nat c) | RDialErr => SDialErr | RNoFree => SNoFree | RTimeout => STimeout end.
@@ -91,7 +95,7 @@ Definition run_op (cf : cfg) (x : cst) (o : op) : option (cst * list res) :=
   let fin (r : option st) (au ma : list nat) (rets : list res) :=
     match r with
     | Some s1 => match settle cf 200 s1 au rets with
-                 | Some (s2, rets') => Some ({| ms := s2; autos := au; mans := ma |}, rets')
+                 | Some (s2, rets') => Some ({| ms := s2; autos := au; mans := ma; cic := cic x |}, rets')
                  | None => None
                  end
     | None => None
@@ -121,7 +125,40 @@ Definition run_op (cf : cfg) (x : cst) (o : op) : option (cst * list res) :=
   | ORelease c => if memb (zn c) (lent s) then fin (step cf s (LRelease (zn c))) (autos x) (mans x) [] else None
   | OClose c => if memb (zn c) (lent s) then fin (run_labels cf s [LClose (zn c); LCloseFin (zn c)]) (autos x) (mans x) [] else None
   | OCloseBegin c => if memb (zn c) (lent s) then fin (step cf s (LClose (zn c))) (autos x) (mans x) [] else None
-  | OCloseFin c => fin (step cf s (LCloseFin (zn c))) (autos x) (mans x) []
+  | OCloseFin c =>
+      match cic x with
+      | Some c0 =>
+          if Nat.eqb c0 (zn c) then
+            (* the CloseIdleConnections goroutine: decConnsCount for this conn, then Close() of the next one of its copy *)
+            match step cf s (LCloseFin c0) with
+            | Some s1 =>
+                match scratch s1 with
+                | c1 :: _ => match fin (step cf s1 (LClose c1)) (autos x) (mans x) [] with
+                             | Some (x', rets) => Some ({| ms := ms x'; autos := autos x'; mans := mans x'; cic := Some c1 |}, rets)
+                             | None => None
+                             end
+                | [] => match fin (Some s1) (autos x) (mans x) [] with
+                        | Some (x', rets) => Some ({| ms := ms x'; autos := autos x'; mans := mans x'; cic := None |}, rets)
+                        | None => None
+                        end
+                end
+            | None => None
+            end
+          else fin (step cf s (LCloseFin (zn c))) (autos x) (mans x) []
+      | None => fin (step cf s (LCloseFin (zn c))) (autos x) (mans x) []
+      end
+  | OCloseIdleBegin =>
+      match cic x, step cf s (LCleanIdle (length (idle s))) with
+      | None, Some s1 =>
+          match scratch s1 with
+          | c1 :: _ => match fin (step cf s1 (LClose c1)) (autos x) (mans x) [] with
+                       | Some (x', rets) => Some ({| ms := ms x'; autos := autos x'; mans := mans x'; cic := Some c1 |}, rets)
+                       | None => None
+                       end
+          | [] => None
+          end
+      | _, _ => None
+      end
   | OCloseIdle | OIdleExpire => fin (close_all cf s) (autos x) (mans x) []
   | OMDecide tmo =>
       match acquire_out cf s with
@@ -154,6 +191,7 @@ Definition project (x : cst) (rets : list res) : obs :=
      o_lent := zl (lent s);
      o_rets := rets;
      o_man := map (fun w => let v := view_of (wst (getw (wants s) w)) in (Z.of_nat w, fst v, snd v)) (mans x);
+     o_closelog := zl (closelog s);
      o_stuck := false |}.
 
 Definition zlist_eqb := list_eqb Z.eqb.
@@ -170,6 +208,7 @@ Definition obs_eqb (a b : obs) : bool :=
   (o_dials a =? o_dials b) && (o_live a =? o_live b) && zlist_eqb (o_lent a) (o_lent b) &&
   list_eqb res_eqb (o_rets a) (o_rets b) &&
   list_eqb (fun p q => (fst (fst p) =? fst (fst q)) && view_eqb (snd (fst p)) (snd (fst q)) && Bool.eqb (snd p) (snd q)) (o_man a) (o_man b) &&
+  zlist_eqb (o_closelog a) (o_closelog b) &&
   Bool.eqb (o_stuck a) (o_stuck b).
 
 Fixpoint replay (cf : cfg) (x : cst) (ops : list (op * obs)) : bool :=
@@ -184,7 +223,7 @@ Fixpoint replay (cf : cfg) (x : cst) (ops : list (op * obs)) : bool :=
 
 Definition corr_ok (c : c18case) : bool :=
   match c with
-  | CTrace cf ops => replay cf {| ms := init; autos := []; mans := [] |} ops
+  | CTrace cf ops => replay cf {| ms := init; autos := []; mans := []; cic := None |} ops
   | CStress _ _ _ _ _ _ _ _ _ _ => true      (* schedules of the Go runtime are not predicted by the model; judged by prop_ok only *)
   end.
 
@@ -203,7 +242,8 @@ Definition obs_ok (cf : cfg) (o : op) (b : obs) : bool :=
   (o_live b + o_dials b <=? eff_max cf) &&                                            (* open or being dialled *)
   (o_cnt b =? o_live b + o_dials b) &&                                                (* exact accounting; zero at quiescence *)
   (zlen (o_idle b) + zlen (o_lent b) + zlen (undelivered (o_man b)) <=? o_live b) &&   (* ... every conn known to the pool or a requester is open *)
-  nodupb (o_idle b ++ o_lent b ++ undelivered (o_man b)) &&                           (* exclusive lending *)
+  nodupb (o_idle b ++ o_lent b ++ undelivered (o_man b) ++ o_closelog b) &&           (* exclusive lending; nothing idle or lent after Close; Close at most once per conn *)
+  forallb (fun c => 0 <=? c) (o_idle b ++ o_lent b ++ o_closelog b) &&                (* only conns that were really dialled *)
   match o with
   | OAcqShort _ => match o_rets b with [SNoFree] | [STimeout] => true | _ => false end   (* a waiter returns at its deadline *)
   | _ => forallb (fun r => match r with SOther => false | _ => true end) (o_rets b)
